@@ -274,7 +274,7 @@ pub fn run(tier: Tier) -> ! {
     chk.sample(json!({"cfg": "cw=2 cn=2 tw=2 tn=2 solver=1", "corpus": "no-word-boundary", "allowed": "Err, never a panic"}));
     chk.assume("a crash of liblinear (C++) kills the engine process; the driver reports that as a violation with the crash log");
     chk.finish(
-        "window / n-gram sizes incl. 0, n > window and differing windows x dictionaries and buckets x solvers x corpora (empty, single sentence, single class, untagged, tagged with 1-3 categories and absent tags, partially annotated, all-unknown, tag-dictionary-only tokens) plus all tag matrices (2 slots x 2 occurrences: all 81; 3x2 and 2x3: all 729 each in thorough, every 7th in quick) under three configurations: Trainer::new/add_example/train must return Ok or Err; a returned model must serialise, re-read identically, be accepted by Predictor::new with and without tag prediction, predict and tag every text up to 3 characters without panicking, and hold only 16-bit weights; plus the real train binary on every data-set combination of a small file pool (several --tok / --part / --dict files, full-width content, duplicate dictionary words, empty lines, no word boundary) x sizes x deterministic solvers {2, 0} x --no-norm: exit 0 or a clean error, and the written model equals (structure exactly, every weight within 3 quantisation steps) the one the library pipeline yields on the same files; non-trivial = a model was returned; evaluations count (configuration, corpus) pairs",
+        "window / n-gram sizes incl. 0, n > window and differing windows x dictionaries and buckets x solvers x corpora (empty, single sentence, single class, untagged, tagged with 1-3 categories and absent tags, partially annotated, all-unknown, tag-dictionary-only tokens) plus all tag matrices (2 slots x 2 occurrences: all 81; 3x2 and 2x3: all 729 each in thorough, every 7th in quick) under three configurations: Trainer::new/add_example/train must return Ok or Err; a returned model must serialise, re-read identically, be accepted by Predictor::new with and without tag prediction, predict and tag every text up to 3 characters without panicking, and hold only 16-bit weights; plus the real train binary on every data-set combination of a small file pool (several --tok / --part / --dict files, full-width content, duplicate dictionary words, empty lines, no word boundary) x sizes x deterministic solvers {2, 0} x --no-norm x default / non-default --eps --cost --zstd-workers: exit 0 or a clean error, and the written model equals (structure exactly, every weight within 3 quantisation steps) the one the library pipeline yields on the same files; non-trivial = a model was returned; evaluations count (configuration, corpus) pairs",
         true,
         &replay,
     )
@@ -296,6 +296,9 @@ pub struct CliCase {
     pub sizes: (u8, u8, u8, u8, u8),
     pub solver: u8,
     pub no_norm: bool,
+    /// (--eps, --cost, --zstd-workers); None = the tool's defaults (0.01, 1.0, 0)
+    #[serde(default)]
+    pub opts: Option<(f64, f64, u32)>,
 }
 
 fn canon(mut m: crate::mirror::ModelSpec) -> crate::mirror::ModelSpec {
@@ -346,7 +349,8 @@ fn cli_expected(c: &CliCase) -> Result<Result<crate::mirror::ModelSpec, String>,
         for s in &sents {
             tr.add_example(s);
         }
-        let m = tr.train(0.01, 1.0, solver(c.solver)).map_err(|e| e.to_string())?;
+        let (eps, cost, _) = c.opts.unwrap_or((0.01, 1.0, 0));
+        let m = tr.train(eps, cost, solver(c.solver)).map_err(|e| e.to_string())?;
         crate::mirror::ModelSpec::from_model(&m).map(canon)
     })
 }
@@ -435,6 +439,9 @@ pub fn check_cli(c: &CliCase) -> Option<(String, String)> {
     if c.no_norm {
         args.push("--no-norm".into());
     }
+    if let Some((eps, cost, zw)) = c.opts {
+        args.extend(["--eps".to_string(), eps.to_string(), "--cost".into(), cost.to_string(), "--zstd-workers".into(), zw.to_string()]);
+    }
     let out = std::process::Command::new(format!("{}/train", crate::c19::CLI_DIR)).args(&args).output().unwrap_or_else(|e| machinery_error(&format!("cannot run train: {e}")));
     let stderr = String::from_utf8_lossy(&out.stderr).to_string();
     let code = out.status.code();
@@ -515,7 +522,9 @@ pub fn cli_cases(tier: Tier) -> Vec<CliCase> {
                     if tier == Tier::Quick && (si + solver as usize / 2 + no_norm as usize) % 2 == 1 && !name.contains("two-tok+") {
                         continue;
                     }
-                    out.push(CliCase { label: format!("{name}-s{si}-v{solver}-n{}", no_norm as u8), tok: tok.clone(), part: part.clone(), dict: dict.clone(), sizes: sz, solver, no_norm });
+                    // every other run with non-default --eps / --cost / --zstd-workers
+                    let opts = if (si + solver as usize + no_norm as usize) % 2 == 0 { None } else { Some(([0.1, 0.001][si % 2], [0.25, 4.0][(solver / 2) as usize % 2], 2)) };
+                    out.push(CliCase { label: format!("{name}-s{si}-v{solver}-n{}", no_norm as u8), tok: tok.clone(), part: part.clone(), dict: dict.clone(), sizes: sz, solver, no_norm, opts });
                 }
             }
         }
